@@ -221,6 +221,19 @@ fixed("C14", "C14:copy_with_new_atts-unvalidated", "ea415a2",
        {"kind": "invalid", "args": [], "kwargs": {"fg": 99}, "via": "copy_with_new_atts"},
        {"kind": "lenient", "args": [], "kwargs": {"fg": "red"}, "meaning": {"fg": "red"}, "via": "copy_with_new_atts"}])
 
+fixed("C17", "C17:empty-parameter", "fffbc52",
+      "a numeric CSI sequence with an empty parameter (ESC[;5H, ESC[;1m, ESC[1;;31m) left its parameters and final byte in the text",
+      [{"pieces": [["e", "\x1b[;5H"], ["t", "foo"]], "exact": True},
+       {"pieces": [["t", "a"], ["e", "\x1b[1;;31m"], ["t", "red"], ["e", "\x1b[m"]], "exact": True}])
+fixed("C17", "C17:non-ascii-digit-swallowed", "7f8ea03",
+      "a truncated ESC[ followed by non-ASCII decimal digits swallowed them and the following text as a CSI sequence",
+      [{"pieces": [["t", "x"], ["e", "\x1b["], ["t", "٣ zzz"]], "exact": False},
+       {"pieces": [["e", "\x1b["], ["t", "３１mfoo"]], "exact": False}])
+fixed("C17", "C17:8bit-csi-kept", "e2d1c23",
+      "a string whose escape sequences all use the 8-bit CSI (no ESC[ anywhere) was returned verbatim, control characters included",
+      [{"pieces": [["e", "\x9b31m"], ["t", "foo"], ["e", "\x9b0m"]], "exact": True},
+       {"pieces": [["t", "a"], ["e", "\x9b2J"], ["t", "b"]], "exact": True}])
+
 known("C03", "C03:prefix-then-undecodable-byte",
       "get_key raises UnicodeDecodeError for a table-sequence prefix (e.g. ESC) followed by a byte >= 0x80 "
       "that does not decode: ESC + any 8-bit byte under ascii, ESC + a UTF-8 lead/continuation byte under utf-8",
